@@ -124,6 +124,10 @@ class H2Protocol:
                 h2.settings.SettingCodes.ENABLE_CONNECT_PROTOCOL: 1,
             },
         )
+        # The decoder took its limit from the default settings when
+        # the connection was constructed, replacing the settings
+        # object does not update it.
+        self.connection.decoder.max_header_list_size = config.h2_max_header_list_size
 
         self.keep_alive_requests = 0
         self.send = send
